@@ -8,4 +8,9 @@ require (
 	pgregory.net/rapid v1.3.0
 )
 
+require (
+	golang.org/x/net v0.24.0 // indirect
+	golang.org/x/text v0.14.0 // indirect
+)
+
 replace github.com/cloudwego/gopkg => /repo
